@@ -113,7 +113,7 @@ pub fn judge(h: &History, recs: &[StepRec]) -> Result<u32, Failure> {
             rx_follow = false;
             continue;
         }
-        if matches!(r.step, Step::Join(_) | Step::JoinAbp) {
+        if matches!(r.step, Step::Join(_) | Step::JoinAbp | Step::SetSession { .. }) {
             // CFLists redefine channels: the mapping restarts only for channels they touch; keep it simple
             if r.deliveries.iter().any(|d| matches!(d.verdict, Verdict::JoinAccept { .. })) && !dl_map.is_empty() {
                 dl_known = false;
@@ -131,7 +131,7 @@ pub fn judge(h: &History, recs: &[StepRec]) -> Result<u32, Failure> {
                 join_params = Some(d);
             }
         }
-        if rx_follow && net_rx.is_none() && !matches!(r.step, Step::Join(_) | Step::JoinAbp) && r.txs.iter().any(|t| !t.join) {
+        if rx_follow && net_rx.is_none() && !matches!(r.step, Step::Join(_) | Step::JoinAbp | Step::SetSession { .. }) && r.txs.iter().any(|t| !t.join) {
             let s = &r.snap_before;
             let mut n = NetRx { off: s.rx1_dr_offset, dr2: s.rx2_data_rate, f2: s.rx2_frequency, delay_ms: s.rx1_delay };
             // what the JoinAccept unambiguously fixed is the network's, not the device's, to say:
